@@ -16,7 +16,7 @@ DOT_SPELLINGS = ['.', '..', './', '../', 'd/.', 'd/..', 'd/./', './/',
 def config(tier):
     return {
         'level': 'exploration',
-        'cases': 1600 if tier == 'quick' else 120000,
+        'cases': 6000 if tier == 'quick' else 120000,
         'budget_s': 45 if tier == 'quick' else 560,
         'floors': {'cases': 300, 'args_trashed': 200, 'args_untouched': 50,
                    'mutating_events': 2000},
